@@ -46,6 +46,13 @@ PROPS = {
         "trivial_tags": [],
         "level_text": "wip", "level_note": "wip",
     },
+    "C02": {
+        "theorems": [],
+        "suites": [{"name": "negotiate", "quick": 1500, "thorough": 40000}],
+        "required_tags": ["negotiate.outcome:backend", "negotiate.outcome:reject", "negotiate.outcome:unknown"],
+        "trivial_tags": [],
+        "level_text": "wip", "level_note": "wip",
+    },
 }
 
 NOT_APPLICABLE = {}
